@@ -1300,4 +1300,93 @@ Lemma spec_set_byte_pointwise : forall (l : list B) (off : nat) (x : B) (i : nat
   nth i (fa_set_byte l off x) zero = (if i =? off then x else nth i l zero).
 Proof. intros. split; [apply fa_set_byte_length | apply fa_set_byte_nth]. Qed.
 
+(* ------------------------------------------------------------------ unwrap returns python
+   bytes exactly when every leaf chunk is a ConcreteChunk *)
+
+Definition pick_kind (d : list (seg B)) : bool :=
+  match d with [x] => fst x | _ => false end.
+
+Lemma defrag_go_nonempty : forall (l : list (seg B)) acc, defrag_go acc l <> [].
+Proof.
+  induction l as [|e r IH]; intros acc; cbn [defrag_go]; [discriminate|].
+  destruct (fst acc && fst e); [apply IH | discriminate].
+Qed.
+
+Lemma defrag_go_kind : forall (l : list (seg B)) acc,
+  pick_kind (defrag_go acc l) = fst acc && forallb fst l.
+Proof.
+  induction l as [|e r IH]; intros acc; cbn [defrag_go forallb].
+  - cbn [pick_kind]. rewrite andb_true_r. reflexivity.
+  - destruct (fst acc && fst e) eqn:E.
+    + rewrite IH. cbn [fst]. apply andb_true_iff in E. destruct E as [-> ->]. reflexivity.
+    + rewrite andb_assoc, E. cbn [andb pick_kind].
+      destruct (defrag_go e r) eqn:Ed; [exfalso; eapply defrag_go_nonempty; eauto | reflexivity].
+Qed.
+
+Lemma cunwrap_kind :
+  (forall c : chunk, wfc c -> fst (cunwrap c) = forallb leaf_conc (leaves c)) /\
+  (forall b (cs : list (nat * chunk)) e, wfl b cs e ->
+      forallb fst (map (fun kc => cunwrap (snd kc)) cs) = forallb leaf_conc (leavesl cs)).
+Proof.
+  apply wf_mutind.
+  - intros sym d s l H. cbn. rewrite andb_true_r. reflexivity.
+  - intros tag cs len Hw IH. rewrite cunwrap_nest, leaves_nest.
+    destruct cs as [|[k c] r].
+    + apply wfl_nil_inv in Hw. subst len. reflexivity.
+    + assert (Hlen : len <> 0).
+      { apply wfl_cons_inv in Hw. destruct Hw as [_ [Hp [_ Hr]]]. apply wfl_le in Hr. lia. }
+      apply Nat.eqb_neq in Hlen. rewrite Hlen. rewrite <- IH.
+      set (L := map (fun kc : nat * chunk => cunwrap (snd kc)) ((k, c) :: r)).
+      transitivity (pick_kind (defrag L)).
+      * destruct (defrag L) as [|x [|y r']]; reflexivity.
+      * unfold L. cbn [map defrag]. rewrite defrag_go_kind. reflexivity.
+  - intros. reflexivity.
+  - intros b c r e Hpos Hc IHc Hr IHr. cbn [map forallb]. unfold leavesl. cbn [flat_map snd].
+    rewrite forallb_app. fold (leavesl r). rewrite IHc, IHr. reflexivity.
+Qed.
+
+Lemma unwrap_kind : forall v : bvec, wf v ->
+  fst (unwrap v) = forallb leaf_conc (leaves (as_chunk None v)).
+Proof.
+  intros v H. unfold unwrap. apply (proj1 cunwrap_kind). constructor. exact H.
+Qed.
+
+(* ------------------------------------------------------------------ __setitem__ with a slice *)
+
+Notation setitem_slice := (setitem_slice B zero).
+Notation fa_setitem := (fa_setitem B zero).
+
+(* whenever the stop bound is not an explicit 0 the sugar is the flat slice assignment *)
+Lemma setitem_partial : forall (v : bvec) (start stop : option nat) (val : chunk),
+  wf v -> wfc val -> stop <> Some 0 ->
+  match fa_setitem (flat v) start stop (cflat val) with
+  | None => setitem_slice v start stop val = None
+  | Some l' => exists v', setitem_slice v start stop val = Some v' /\ wf v' /\ flat v' = l'
+  end.
+Proof.
+  intros v start stop val Hv Hval Hstop.
+  unfold setitem_slice, ByteVecModel.setitem_slice, fa_setitem, ByteVecSpec.fa_setitem.
+  assert (H1 : py_or start 0 = bound start 0) by (destruct start as [[|n]|]; reflexivity).
+  assert (H2 : py_or stop (blen v) = bound stop (length (flat v))).
+  { rewrite (flat_length v Hv). destruct stop as [[|n]|]; [congruence | reflexivity | reflexivity]. }
+  rewrite H1, H2. apply set_slice_correct; assumption.
+Qed.
+
 End Proofs.
+
+(* an explicit stop of 0 is taken for "to the end": v[2:0] = [8; 9] on [1; 2; 3; 4] is
+   accepted and writes [2, 4) where the flat array rejects the write *)
+Lemma setitem_witness :
+  let v : bvec nat := run_ops 0 [OAppend (wrap false [1; 2; 3; 4])] in
+  let val : chunk nat := wrap false [8; 9] in
+  wf v /\ wfc val /\
+  fa_setitem nat 0 (flat v) (Some 2) (Some 0) (cflat val) = None /\
+  exists v', setitem_slice nat 0 v (Some 2) (Some 0) val = Some v' /\
+             flat v' = [1; 2; 8; 9] /\ flat v' <> flat v.
+Proof.
+  cbv zeta. split; [|split; [|split]].
+  - apply history_correct. repeat constructor.
+  - constructor. cbn. lia.
+  - vm_compute. reflexivity.
+  - eexists. split; [vm_compute; reflexivity|]. split; [reflexivity|]. vm_compute. discriminate.
+Qed.
